@@ -880,6 +880,8 @@ def gen_segs(rng, arrays, indices, sizes, shape=None):
     def indexed(name):
         if indices and rng.random() < 0.5:
             return ["v", name, rng.choice(indices)]
+        if sizes[name] >= 11 and rng.random() < 0.6:
+            return ["i", name, rng.choice([9, 10, 10, sizes[name] - 1])]
         return ["i", name, rng.randrange(sizes[name])]
 
     a = rng.choice(arrays)
@@ -1615,6 +1617,9 @@ def run_cases(ctx, cases, tmpdir, table):
             # the resolver of the model stops at `[`: the texts with array accesses are resolved by Tree.interpA
             # (Model/TreeArray.lean) over the variables the model layered for this component
             array_round.append((slim, mout["vars"], out))
+        if kind == "array":
+            ctx.tag("model:array-case-resolved-by-interpA")
+            continue
         if mres.get("error") == "unsupported":
             ctx.tag("model:unsupported")
             continue
@@ -1652,6 +1657,8 @@ def run_cases(ctx, cases, tmpdir, table):
             texts = [("top", slim["top"])]
             if slim.get("vsegs"):
                 texts.append(("report", render_segs(slim["vsegs"])))
+            if slim["fault"] != "none":
+                texts = texts[:1]       # the injected fault sits in `top`: the whole resolution fails
             for label, text in texts:
                 plan2.append((slim, label, text, out))
                 reqs2.append({"op": "interpA", "ctx": mvars, "s": text, "fuel": FUEL})
@@ -1663,11 +1670,8 @@ def run_cases(ctx, cases, tmpdir, table):
             if "ok" in out:
                 got = {"ok": locate_top(out["ok"], slim["where"]) if label == "top" else
                        (out["ok"].get("variables") or {}).get("report")}
-            elif slim["fault"] == "none":
-                got = out
             else:
-                # the injected fault sits in `top`; which text is resolved first is not the property's business
-                got = mo if "error" in mo else out
+                got = out
             ctx.compare("text of get_component_configuration == Tree.interpA over Tree.varsOf",
                         dict(slim, text=label), coarse_error(array_error(mo)), coarse_error(array_error(got)))
 
